@@ -30,7 +30,7 @@ CLAIMS = {
          "successful commit-log Flush then Sync; each value log is flushed then fsynced and the closure reports success only then; ImmuStore.commit returns "
          "a nil error only after the commit watcher acknowledged the tx; AHtree.sync rewrites its commit log only after payload and digest logs are fsynced "
          "and moves its synced frontier only after the commit-log fsync; TBtree.flushTree appends the commit-log entry only after node/history logs are "
-         "flushed, fsyncs them before the commit log, and discards node-log data only after the commit-log fsync; singleapp's sync flushes its write buffer before the fsync. Far narrower than the property: crash-point "
+         "flushed, fsyncs them before the commit log, and discards node-log data only after the commit-log fsync; singleapp's sync flushes its write buffer before the fsync; the tbtree commit-log entry codec round-trips every field INCLUDING the not-fsynced flag that index recovery relies on (harness over the real serialize/deserialize, shared with C15). Far narrower than the property: crash-point "
          "enumeration, partial-write images, recovery at Open and post-recovery proofs are not decided.",
          "DESIGN.md 3 (C03), 9.5"),
  "C04": ("Narrow, per-function part of the read path: the index value codec (serializeIndexableEntry / valueRefFrom) round-trips vLen, vOff, hVal, metadata "
@@ -44,7 +44,7 @@ CLAIMS = {
          "included), restore the four SQL-level counters, are a no-op on error and write only the SQLTx (checked frame); a harness proves that "
          "RollbackToSavepoint leaves the store transaction untouched and the harness stating the property's clause (writes after the savepoint are undone) is "
          "the known finding; Cancel and the first part of Commit keep the one-shot discipline (already-closed error, same store tx); every invalidation of the engine-wide "
-         "catalog cache bumps the cache version (typestate order rule). With Go maps modelled as heap objects: Savepoint records under the given name a fresh, non-nil state holding the two scalar counters and FRESH copies of the two per-table key maps that contain nothing but entries of the live maps (subset direction, for every key); RollbackToSavepoint / ReleaseSavepoint fail exactly when the name is absent, restore from the recorded state, consume the savepoint and leave the other entries on error; harnesses: Savepoint; arbitrary counter changes; RollbackToSavepoint finds the savepoint, restores the counters and cannot be repeated; a savepoint is released once. Not decided: that the copies are COMPLETE (range over a map yields an arbitrary present key: no visited set), statement "
+         "catalog cache bumps the cache version, and BEGIN TRANSACTION with pending implicit changes commits them before it opens the new transaction (typestate order rules). With Go maps modelled as heap objects: Savepoint records under the given name a fresh, non-nil state holding the two scalar counters and FRESH copies of the two per-table key maps that contain nothing but entries of the live maps (subset direction, for every key); RollbackToSavepoint / ReleaseSavepoint fail exactly when the name is absent, restore from the recorded state, consume the savepoint and leave the other entries on error; harnesses: Savepoint; arbitrary counter changes; RollbackToSavepoint finds the savepoint, restores the counters and cannot be repeated; a savepoint is released once. Not decided: that the copies are COMPLETE (range over a map yields an arbitrary present key: no visited set), statement "
          "execution, atomicity and isolation over programs and sessions, pgsql front end.",
          "DESIGN.md 3 (C13), 11"),
  "C05": ("Sequential clauses of MVCC over the real OngoingTx code: GetWithFilters / GetWithPrefixAndFilters / MarkPrefixScanned / key readers record exactly one "
@@ -64,7 +64,7 @@ CLAIMS = {
          "DESIGN.md 3 (C06)"),
  "C07": ("Commit-state functions of the replica path under value contracts: mayCommit moves the committed frontier exactly to the allowance, sets committedAlh "
          "to the Alh of the last committed ring-buffer entry, leaves everything on error and preserves the ordering lock invariant (committed <= allowance <= "
-         "precommitted); AllowCommitUpto is monotone and capped by the precommitted id and fails without external allowance; DiscardPrecommittedTxsSince recedes the "
+         "precommitted); AllowCommitUpto is monotone and capped by the precommitted id and fails without external allowance; PrecommittedAlh returns the committed pair, the in-memory pair, or in between exactly the (durable - committed)-th element of the ring of precommitted transactions (what a replica acknowledges); DiscardPrecommittedTxsSince recedes the "
          "durable-precommit watermark consistently at the return sites that decide within budget (its full contract - committed pair untouched, allowance of "
          "discarded transactions voided - is written and was discharged, but is too unstable in solver time to be registered); "
          "its deferred function literal recedes the watermark only after the precommitted id was lowered (typestate order rule); PrecommittedAlh / accessors; OngoingTx.validateAgainst accepts a header only with matching entry count and metadata; Tx.Header copies the header "
